@@ -136,7 +136,7 @@ func TestCheck(t *testing.T) {
 	}
 	rec.Count("selftest.models_ok", 1)
 	gs := plan()
-	rec.Note("rule", "Linearizability (cmap.Map, cmap.Atomic, slice): a case is one seeded concurrent program (0-3 op sequential prefix, then 2-4 goroutines x 1-5 ops over 1-3 keys, unique written values, start barrier, optional per-round barriers, seeded Gosched perturbation) run against the real structure; the recorded call/return history is checked by porcupine against an un-partitioned sequential model (Map: Go map incl. Len/Keys/Range/Clear; Atomic: key->object identity + per-object integer, GetOrCreate must return the current object or a fresh one; slice: append-only sequence with copy semantics - every Append argument is a caller-owned window of a re-used buffer with 0-8 elements of spare capacity that the caller overwrites / appends to / hands to a second instance right after the call). Every history ends with sequential observers (Range+Len, ForEach, Slice+Len). Non-trivial = at least two operations of different goroutines really overlapped in the recorded history; distinct = distinct program text. "+
+	rec.Note("rule", "Linearizability (cmap.Map, cmap.Atomic, slice): a case is one seeded concurrent program (0-3 op sequential prefix, then 2-4 goroutines x 1-5 ops over 1-3 keys, unique written values, start barrier, optional per-round barriers, seeded Gosched perturbation) run against the real structure; the recorded call/return history is checked by porcupine against an un-partitioned sequential model (Map: Go map incl. Len/Keys/Range/Clear; Atomic: key->object identity + per-object integer, GetOrCreate must return the current object or a fresh one; slice: append-only sequence with copy semantics - every Append argument is a caller-owned window of a re-used buffer with 0-8 elements of spare capacity that the caller overwrites / appends to / hands to a second instance right after the call). Every fifth map / atomic history is a single-writer program: the prefix gives every key its first version, goroutine 0 performs 3-5 writes in a fixed key order with fresh versions (Store / Delete / Clear; Delete+GetOrCreate = new identity), the other goroutines only observe and open with a slow walk - a Range / ForEach whose callback yields and waits (bounded, on the history clock) after every entry so that the writer attempts its writes while the walk is inside the callback; besides the porcupine check every observer reply must be correct for one of the states S_0..S_n the structure passes through (a walk is one snapshot). Every history ends with sequential observers (Range+Len, ForEach, Slice+Len). Non-trivial = at least two operations of different goroutines really overlapped in the recorded history; distinct = distinct program text. "+
 		"Aliasing (sequential): every scenario of {0-2 prior appends} x {argument window n 0..3, spare capacity 0..8, offset 0/2} x {shared with a second Slice instance, overwritten by the caller, appended to by the caller, buffer re-used for the next call}, Len and Slice of both instances compared with plain slices after every step; seeded sequences of the same actions over two instances; the caller appending to the result of Slice(); the caller overwriting / appending to the result of Map.Keys(). A caller overwriting an element of the result of Slice() is observed, not judged. "+
 		"Zero values: in the concurrent map/atomic histories the first key is the empty string and a sixth of the stored / initial values are 0; sequential differentials against a builtin map / slice over cmap.Map[string,int], [int,string], [string,*int], [any,any], [bool,struct{}], cmap.Atomic[string,int64], [int,int64], Slice[*int], Slice[any] with zero keys ('', 0, nil, false) and zero values (0, '', nil pointer, nil interface, typed nil pointer), all observers after every step. "+
 		"ring.Ring[any] vs container/ring with element values nil / zero / equal / typed-nil / shared pointers (values also reassigned mid-sequence), Move and Unlink with 0, negative and multiples of the length, rings of length 1, a ring linked with itself. "+
@@ -154,6 +154,7 @@ func TestCheck(t *testing.T) {
 		"ring.values.nil_values_seen_by_do", "ring.values.link_with_itself", "ring.values.link_or_unlink_on_length_1", "ring.values.arg_zero", "ring.values.arg_negative", "ring.values.arg_multiple_of_len",
 		"ring.seeded.arg_multiple_of_len", "ring.seeded.link_with_itself", "ring.seeded.length_1_receivers",
 		"zero.present_zero_key_observed", "zero.present_zero_value_observed",
+		"lin.map.snapshot.single_writer_histories", "lin.map.snapshot.writes_attempted_during_a_slow_walk", "lin.atomic.snapshot.single_writer_histories", "lin.atomic.snapshot.writes_attempted_during_a_slow_walk",
 		"alias.slice.scenarios", "alias.slice.seeded_sequences", "alias.map.keys_checks",
 		"selftest.models_ok"})
 	rec.Note("exhaustive", fmt.Sprintf("ring: all %d^%d sequences over the reduced alphabet from each of the %d initial states (New(a),New(b)), a,b in 0..%d; buffered: all valid AppendBack/RemoveFront sequences of length %d for the 36 size pairs, and all valid sequences of length %d over {AppendBack(fresh), AppendBack(nil), AppendBack(shared), RemoveFront} for the 16 size pairs 0..3. The linearizability part is sampled, not exhaustive.", len(ringAlphabet), ringExhLen, (ringExhInit+1)*(ringExhInit+1), ringExhInit, bufExhLen, bufExh3Len))
